@@ -95,6 +95,9 @@ def run(tier):
     s = seed()
     n = 150 if tier == "quick" else common.tscale(2000)
     cases = [make_case(i, s, tier) for i in range(n)]
+    # allocator storm: tiny frozen heaps built back to back on producer threads (consecutive heaps share chunks) and
+    # dropped on consumer threads while the producer keeps building; a sample is kept and re-read at the end
+    storms = [{"id": "storm%d" % k, "storm": True, "pairs": 3 + (k % 2) * 3, "n": 30000 if tier == "quick" else 120000} for k in range(4 if tier == "quick" else 16)]
     stats = {"cases": 0, "thread_runs": 0, "fm_observations": 0, "cross_thread_modules": 0}
     flavors = [("dbg", n)] if tier == "quick" else [("dbg", n), ("rel", n), ("asan", 200), ("tsan", 200)]
     tsan_seen = 0
@@ -132,6 +135,26 @@ def run(tier):
             for c in cases[:nf]:
                 if c["id"] in batch.events:
                     judge(rep, c, batch.events[c["id"]], flavor, stats)
+            sb = common.run_cases(svh, "threads", storms if not san else storms[:2], name + "_storm", opts=opts, shards=2, timeout=3000, env_extra=env, asan_like=san, mem_gb=24, per_case_timeout=900)
+            for cr in sb.crashes:
+                rep.violation("c20:storm:" + common.crash_signature(cr), "[%s] crash in allocator storm %s: %s" % (flavor, cr["id"], ((cr.get("confirm") or {}).get("stderr") or "")[-400:]),
+                              {"flavor": flavor, "case": cr["case"], "opts": opts, "crash": cr.get("confirm")})
+            for inc in sb.inconclusive:
+                rep.inconc(inc["why"], inc.get("id"))
+            for c in storms:
+                for e in sb.events.get(c["id"], []):
+                    if e[0] == "panic":
+                        if common.is_oom_text(str(e[1])):
+                            rep.inconc("allocation failure", c["id"])
+                        else:
+                            rep.violation("c20:storm:panic:" + re.sub(r"[0-9]+", "N", str(e[1]))[:80], "[%s] %s: %s" % (flavor, c["id"], e[1]), {"flavor": flavor, "case": c, "opts": opts})
+                    elif e[0] == "storm_producer":
+                        stats["storm_kept"] = stats.get("storm_kept", 0) + e[1]
+                        if e[2]:
+                            rep.violation("c20:storm:content", "[%s] %s: %d kept frozen values changed while other heaps were dropped on another thread: %s" % (flavor, c["id"], len(e[2]), json.dumps(e[2][:2])[:300]),
+                                          {"flavor": flavor, "case": c, "opts": opts})
+                    elif e[0] == "storm_consumer":
+                        stats["storm_dropped"] = stats.get("storm_dropped", 0) + e[1]
             if flavor == "tsan":
                 for sig, text in tsan_reports(logdir):
                     tsan_seen += 1
@@ -146,6 +169,8 @@ def run(tier):
         "frozen_module_observations": stats["fm_observations"],
         "modules_used_and_dropped_on_another_thread": stats["cross_thread_modules"],
         "first_use_cases": sum(1 for c in cases if c["first_use"]),
+        "storm_heaps_dropped_on_another_thread": stats.get("storm_dropped", 0),
+        "storm_values_kept_and_reread": stats.get("storm_kept", 0),
         "tsan_reports_in_repo_frames": tsan_seen,
         "flavors": used,
     }
